@@ -24,3 +24,4 @@ def run(prog, rep):
     _rio7.run_swapped(prog, rep)
     from ..rules import r_pair as _rpp
     _rpp.run_pos_pass(prog, rep)
+    _rpp.run_dispatch_total(prog, rep)
